@@ -1,7 +1,12 @@
 /-
-  Helper lemmas for C07 (core Lean only).
+  Helper lemmas for C07 (core Lean for the indexing part; the tether geometry at `ℝ` uses single Mathlib modules).
 -/
 import Verif.Model.C07
+import Verif.NumReal
+import Mathlib.Tactic.FieldSimp
+import Mathlib.Tactic.Ring
+import Mathlib.Tactic.Linarith
+import Mathlib.Tactic.LinearCombination
 
 namespace Verif.C07
 open Verif.Py
@@ -314,5 +319,274 @@ theorem frames_substack (s : Stack) (hst : 0 < s.st) (N : Nat) (hN : s.numFrames
   rw [this, Int.add_mul, Int.mul_comm s.st (i : Int), Int.mul_assoc, Int.mul_comm (cn : Int) s.st,
     ← Int.mul_assoc]
   omega
+
+/-! ### `numpy.cumsum` / `numpy.argmax` as used by `TiffStack.get_frame` -/
+
+/-- partial sums starting from `s` -/
+def psums (s : Int) : List Int → List Int
+  | [] => []
+  | x :: xs => (s + x) :: psums (s + x) xs
+
+theorem cumsum_fold (l : List Int) : ∀ (s : Int) (acc : List Int),
+    (l.foldl (fun (acc : Int × List Int) x => (acc.1 + x, (acc.1 + x) :: acc.2)) (s, acc)).2.reverse
+      = acc.reverse ++ psums s l := by
+  induction l with
+  | nil => intro s acc; simp [psums]
+  | cons x xs ih =>
+    intro s acc
+    simp only [List.foldl_cons, psums]
+    rw [ih]
+    simp
+
+theorem cumsum_eq_psums (l : List Int) : cumsum l = psums 0 l := by
+  unfold cumsum
+  rw [cumsum_fold]; simp
+
+def amStep (st : Nat × Nat × Int) (y : Int) : Nat × Nat × Int :=
+  let (best, i, bv) := st
+  if y > bv then (i, i + 1, y) else (best, i + 1, bv)
+
+theorem argmax_fold_one (ys : List Int) (h : ∀ y ∈ ys, y ≤ 1) : ∀ (best i : Nat),
+    (ys.foldl amStep (best, i, 1)).1 = best := by
+  induction ys with
+  | nil => intro best i; rfl
+  | cons y ys ih =>
+    intro best i
+    have hy : y ≤ 1 := h y (List.mem_cons_self)
+    simp only [List.foldl_cons, amStep]
+    rw [if_neg (by omega)]
+    exact ih (fun z hz => h z (List.mem_cons_of_mem _ hz)) best (i + 1)
+
+/-- index of the first `1` counted from `i`, else `best` -/
+def firstOne (best i : Nat) : List Int → Nat
+  | [] => best
+  | y :: ys => if y = 1 then i else firstOne best (i + 1) ys
+
+theorem argmax_fold_zero (ys : List Int) (h : ∀ y ∈ ys, y = 0 ∨ y = 1) : ∀ (best i : Nat),
+    (ys.foldl amStep (best, i, 0)).1 = firstOne best i ys := by
+  induction ys with
+  | nil => intro best i; rfl
+  | cons y ys ih =>
+    intro best i
+    have hy := h y (List.mem_cons_self)
+    have hrest : ∀ z ∈ ys, z = 0 ∨ z = 1 := fun z hz => h z (List.mem_cons_of_mem _ hz)
+    simp only [List.foldl_cons, amStep, firstOne]
+    rcases hy with hy | hy
+    · subst hy
+      rw [if_neg (by omega), if_neg (by omega)]
+      exact ih hrest best (i + 1)
+    · subst hy
+      rw [if_pos (by omega), if_pos rfl]
+      exact argmax_fold_one ys (fun z hz => by rcases hrest z hz with h | h <;> omega) i (i + 1)
+
+theorem argmaxFirst_zero_head (ys : List Int) (h : ∀ y ∈ ys, y = 0 ∨ y = 1) :
+    argmaxFirst (0 :: ys) = some (firstOne 0 1 ys) := by
+  unfold argmaxFirst
+  simp only
+  congr 1
+  exact argmax_fold_zero ys h 0 1
+
+/-- The page lookup on the partial sums: generalised over the pages `s` before the current file and the
+    number `i` of files already passed. -/
+theorem firstOne_psums (frame : Int) : ∀ (lens : List Nat) (s : Int) (i : Nat), s ≤ frame →
+    frame < s + ((lens.map Int.ofNat).sum) →
+    ∃ f : Nat, f < lens.length ∧
+      firstOne 0 (i + 1) ((psums s (lens.map Int.ofNat)).map fun c => if frame < c then 1 else 0) = i + 1 + f ∧
+      s + ((lens.take f).map Int.ofNat).sum ≤ frame ∧
+      frame < s + ((lens.take f).map Int.ofNat).sum + (lens.getD f 0 : Nat) := by
+  intro lens
+  induction lens with
+  | nil => intro s i h0 h1; simp only [List.map_nil, List.sum_nil] at h1; omega
+  | cons n ns ih =>
+    intro s i h0 h1
+    simp only [List.map_cons, psums, firstOne, List.sum_cons] at h1 ⊢
+    by_cases hlt : frame < s + Int.ofNat n
+    · refine ⟨0, by simp, ?_, ?_, ?_⟩
+      · rw [if_pos hlt, if_pos rfl]
+      · simpa using h0
+      · simpa using hlt
+    · rw [if_neg hlt, if_neg (by decide)]
+      obtain ⟨f, hf, hfo, hlo, hhi⟩ := ih (s + Int.ofNat n) (i + 1) (by omega) (by omega)
+      refine ⟨f + 1, by simp; omega, ?_, ?_, ?_⟩
+      · rw [hfo]; omega
+      · simp only [List.take_succ_cons, List.map_cons, List.sum_cons]; omega
+      · simp only [List.take_succ_cons, List.map_cons, List.sum_cons, List.getD_cons_succ]; omega
+
+theorem getElem?_psums (lens : List Nat) : ∀ (s : Int) (f : Nat), f < lens.length →
+    (s :: psums s (lens.map Int.ofNat))[f]? = some (s + ((lens.take f).map Int.ofNat).sum) := by
+  induction lens with
+  | nil => intro s f hf; simp at hf
+  | cons n ns ih =>
+    intro s f hf
+    cases f with
+    | zero => simp
+    | succ f =>
+      simp only [List.map_cons, psums, List.getElem?_cons_succ, List.take_succ_cons, List.sum_cons]
+      rw [ih (s + Int.ofNat n) f (by simpa using hf)]
+      congr 1; omega
+
+/-! ### sorted columns: `filter` = `takeWhile`/`dropWhile` -/
+
+theorem filter_eq_takeWhile_of_antitone {α} (p : α → Bool) :
+    ∀ (l : List α), l.Pairwise (fun x y => p y = true → p x = true) → l.filter p = l.takeWhile p := by
+  intro l
+  induction l with
+  | nil => intro _; rfl
+  | cons x xs ih =>
+    intro h
+    rw [List.pairwise_cons] at h
+    by_cases hx : p x = true
+    · rw [List.filter_cons_of_pos hx, List.takeWhile_cons_of_pos hx, ih h.2]
+    · rw [List.filter_cons_of_neg hx, List.takeWhile_cons_of_neg hx]
+      rw [List.filter_eq_nil_iff]
+      intro y hy hpy
+      exact hx (h.1 y hy hpy)
+
+theorem filter_eq_dropWhile_of_monotone {α} (p : α → Bool) :
+    ∀ (l : List α), l.Pairwise (fun x y => p x = true → p y = true) → l.filter p = l.dropWhile (fun x => !p x) := by
+  intro l
+  induction l with
+  | nil => intro _; rfl
+  | cons x xs ih =>
+    intro h
+    rw [List.pairwise_cons] at h
+    by_cases hx : p x = true
+    · rw [List.filter_cons_of_pos hx, List.dropWhile_cons_of_neg (by simp [hx])]
+      congr 1
+      rw [List.filter_eq_self]
+      intro y hy
+      exact h.1 y hy hx
+    · rw [List.filter_cons_of_neg hx, List.dropWhile_cons_of_pos (by simp [hx]), ih h.2]
+
+theorem takeWhile_eq_take_length {α} (p : α → Bool) (l : List α) :
+    l.takeWhile p = l.take (l.takeWhile p).length := by
+  induction l with
+  | nil => rfl
+  | cons x xs ih =>
+    by_cases hx : p x = true
+    · rw [List.takeWhile_cons_of_pos hx, List.length_cons, List.take_succ_cons, ← ih]
+    · rw [List.takeWhile_cons_of_neg hx]; rfl
+
+theorem dropWhile_eq_drop_length {α} (p : α → Bool) (l : List α) :
+    l.dropWhile p = l.drop (l.takeWhile p).length := by
+  induction l with
+  | nil => rfl
+  | cons x xs ih =>
+    by_cases hx : p x = true
+    · rw [List.takeWhile_cons_of_pos hx, List.dropWhile_cons_of_pos hx, List.length_cons, List.drop_succ_cons, ih]
+    · rw [List.takeWhile_cons_of_neg hx, List.dropWhile_cons_of_neg hx]; rfl
+
+theorem takeWhile_map_length {α β} (f : α → β) (p : β → Bool) (l : List α) :
+    ((l.map f).takeWhile p).length = (l.takeWhile (p ∘ f)).length := by
+  induction l with
+  | nil => rfl
+  | cons x xs ih =>
+    by_cases hx : p (f x) = true
+    · rw [List.map_cons, List.takeWhile_cons_of_pos hx, List.takeWhile_cons_of_pos (by simpa using hx)]
+      simp [ih]
+    · rw [List.map_cons, List.takeWhile_cons_of_neg hx, List.takeWhile_cons_of_neg (by simpa using hx)]
+      rfl
+
+/-! ### tether geometry at `ℝ` -/
+
+theorem two_real : (2.0 : ℝ) = 2 := by norm_num
+
+theorem tLen_sq (e : Pt ℝ × Pt ℝ) :
+    tLen e * tLen e = (e.2.x - e.1.x) * (e.2.x - e.1.x) + (e.2.y - e.1.y) * (e.2.y - e.1.y) := by
+  unfold tLen
+  exact Real.mul_self_sqrt (by nlinarith [mul_self_nonneg (e.2.x - e.1.x), mul_self_nonneg (e.2.y - e.1.y)])
+
+theorem tLen_pos (e : Pt ℝ × Pt ℝ) (h : e.1.x ≠ e.2.x ∨ e.1.y ≠ e.2.y) : 0 < tLen e := by
+  unfold tLen
+  apply Real.sqrt_pos.mpr
+  rcases h with h | h
+  · have : e.2.x - e.1.x ≠ 0 := sub_ne_zero.mpr (Ne.symm h)
+    nlinarith [mul_self_pos.mpr this, mul_self_nonneg (e.2.y - e.1.y)]
+  · have : e.2.y - e.1.y ≠ 0 := sub_ne_zero.mpr (Ne.symm h)
+    nlinarith [mul_self_pos.mpr this, mul_self_nonneg (e.2.x - e.1.x)]
+
+theorem rotate_first (e : Pt ℝ × Pt ℝ) (h : e.1.x ≠ e.2.x ∨ e.1.y ≠ e.2.y) :
+    (rotate e e.1).x = tCx e - tLen e / 2 ∧ (rotate e e.1).y = tCy e := by
+  have hr := tLen_pos e h
+  have hsq := tLen_sq e
+  unfold rotate tCos tSin tCx tCy
+  simp only [two_real]
+  generalize tLen e = r at *
+  constructor
+  · field_simp
+    linear_combination (1 : ℝ) * hsq
+  · field_simp
+    ring
+
+theorem rotate_second (e : Pt ℝ × Pt ℝ) (h : e.1.x ≠ e.2.x ∨ e.1.y ≠ e.2.y) :
+    (rotate e e.2).x = tCx e + tLen e / 2 ∧ (rotate e e.2).y = tCy e := by
+  have hr := tLen_pos e h
+  have hsq := tLen_sq e
+  unfold rotate tCos tSin tCx tCy
+  simp only [two_real]
+  generalize tLen e = r at *
+  constructor
+  · field_simp
+    linear_combination (-1 : ℝ) * hsq
+  · field_simp
+    ring
+
+
+/-- The ends of a tether as the processed image shows them. -/
+theorem ends_processed (t : Tether ℝ) (e : Pt ℝ × Pt ℝ) (he : t.ends = some e)
+    (h : e.1.x ≠ e.2.x ∨ e.1.y ≠ e.2.y) :
+    ∃ a b, t.endsProcessed = some (a, b) ∧
+      a.x = tCx e - tLen e / 2 - t.offX ∧ a.y = tCy e - t.offY ∧
+      b.x = tCx e + tLen e / 2 - t.offX ∧ b.y = tCy e - t.offY := by
+  have h1 := rotate_first e h
+  have h2 := rotate_second e h
+  refine ⟨_, _, by simp only [Tether.endsProcessed, he, Option.map_some]; rfl, ?_, ?_, ?_, ?_⟩
+  · show (rotate e e.1).x - t.offX = _; rw [h1.1]
+  · show (rotate e e.1).y - t.offY = _; rw [h1.2]
+  · show (rotate e e.2).x - t.offX = _; rw [h2.1]
+  · show (rotate e e.2).y - t.offY = _; rw [h2.2]
+
+/-- `define_tether(p, q)` on a stack without tether (ROI origin `(ox, oy)`, `p ≠ q` in the current image):
+    closed form of the processed ends, `L` the distance of the chosen points. -/
+theorem fresh_tether (ox oy : ℝ) (p q : Pt ℝ) (h : p.x ≠ q.x ∨ p.y ≠ q.y) :
+    ∃ a b, ((Tether.new ox oy none).withTether p q).endsProcessed = some (a, b) ∧
+      0 < Real.sqrt ((q.x - p.x) * (q.x - p.x) + (q.y - p.y) * (q.y - p.y)) ∧
+      a.x = (p.x + q.x) / 2 - Real.sqrt ((q.x - p.x) * (q.x - p.x) + (q.y - p.y) * (q.y - p.y)) / 2 ∧
+      a.y = (p.y + q.y) / 2 ∧
+      b.x = (p.x + q.x) / 2 + Real.sqrt ((q.x - p.x) * (q.x - p.x) + (q.y - p.y) * (q.y - p.y)) / 2 ∧
+      b.y = (p.y + q.y) / 2 := by
+  obtain ⟨e, hedef⟩ : ∃ e : Pt ℝ × Pt ℝ, e = (⟨p.x + ox, p.y + oy⟩, ⟨q.x + ox, q.y + oy⟩) := ⟨_, rfl⟩
+  have he : ((Tether.new ox oy none).withTether p q).ends = some e := by rw [hedef]; rfl
+  have hox : ((Tether.new ox oy none).withTether p q).offX = ox := rfl
+  have hoy : ((Tether.new ox oy none).withTether p q).offY = oy := rfl
+  have e1x : e.1.x = p.x + ox := by rw [hedef]
+  have e1y : e.1.y = p.y + oy := by rw [hedef]
+  have e2x : e.2.x = q.x + ox := by rw [hedef]
+  have e2y : e.2.y = q.y + oy := by rw [hedef]
+  have h' : e.1.x ≠ e.2.x ∨ e.1.y ≠ e.2.y := by
+    rw [e1x, e1y, e2x, e2y]
+    rcases h with h | h
+    · left; intro hh; exact h (by linarith)
+    · right; intro hh; exact h (by linarith)
+  have hL : tLen e = Real.sqrt ((q.x - p.x) * (q.x - p.x) + (q.y - p.y) * (q.y - p.y)) := by
+    unfold tLen
+    rw [e1x, e1y, e2x, e2y]
+    show Real.sqrt _ = _
+    congr 1
+    ring
+  have hcx : tCx e = (p.x + q.x) / 2 + ox := by
+    unfold tCx; rw [e1x, e2x]; simp only [two_real]; ring
+  have hcy : tCy e = (p.y + q.y) / 2 + oy := by
+    unfold tCy; rw [e1y, e2y]; simp only [two_real]; ring
+  obtain ⟨a, b, hab, hax, hay, hbx, hby⟩ := ends_processed _ e he h'
+  have hpos := tLen_pos e h'
+  rw [hL] at hpos hax hbx
+  rw [hcx, hox] at hax hbx
+  rw [hcy, hoy] at hay hby
+  refine ⟨a, b, hab, hpos, ?_, ?_, ?_, ?_⟩
+  · rw [hax]; ring
+  · rw [hay]; ring
+  · rw [hbx]; ring
+  · rw [hby]; ring
 
 end Verif.C07
